@@ -116,6 +116,13 @@ class Profile:
             cdict[var] = val
 
         for key in cdict:
+            if key.startswith("fit param "):
+                # fit parameters have no default
+                if key.endswith("vary"):
+                    cdict[key] = cdict[key].lower() == "true"
+                else:
+                    cdict[key] = float(cdict[key])
+                continue
             default = DEFAULTS[key]
             if isinstance(default, list):
                 val = cdict[key].split(",")
